@@ -355,10 +355,14 @@ fn exec_sched(sc: &Scenario) -> Report {
             .all(|o| o.k != "dec" && !(o.k == "inc" && o.n0() > (1 << 40)));
         let violations: Arc<std::sync::Mutex<Vec<(String, String)>>> = Arc::new(std::sync::Mutex::new(vec![]));
         let mut expected: u64 = 0;
+        // (the amounts are small: no saturation, so that the order does not matter)
+        let mut expected_len: u64 = sc.c("len0");
         for o in sc.threads.iter().flatten() {
             match o.k.as_str() {
                 "inc" => expected = expected.wrapping_add(o.n0()),
                 "dec" => expected = expected.wrapping_sub(o.n0()),
+                "inc_length" => expected_len += o.n0(),
+                "dec_length" => expected_len -= o.n0().min(expected_len),
                 _ => {}
             }
         }
@@ -417,6 +421,17 @@ fn exec_sched(sc: &Scenario) -> Report {
                 format!("after all threads joined position() = {fin}, wrapping sum of all inc/dec = {expected}"),
             );
         }
+        let fin_len = match &shared {
+            Some(sh) => sh.length(),
+            None => pb.length(),
+        };
+        let expected_len_opt = if sc.c("len_known") == 1 { Some(expected_len) } else { None };
+        if fin_len != expected_len_opt {
+            r.violate(
+                "C07.lost_update",
+                format!("after all threads joined length() = {fin_len:?}, the initial length plus all inc_length minus all dec_length = {expected_len}"),
+            );
+        }
         for (rule, d) in violations.lock().unwrap().iter() {
             r.violate(rule, d.clone());
         }
@@ -449,6 +464,8 @@ fn run_thread_ops(
                 r
             }
             "dec" => call(|| h.dec(a)),
+            "inc_length" => call(|| h.inc_length(a)),
+            "dec_length" => call(|| h.dec_length(a)),
             "tick" => call(|| h.tick()),
             // calls that are not part of the position-defining history: they must not disturb it
             "neutral" => call(|| match a % 7 {
@@ -456,7 +473,7 @@ fn run_thread_ops(
                 1 => h.reset_eta(),
                 2 => h.set_message("m"),
                 3 => h.set_prefix("p"),
-                4 => h.set_length(1000),
+                4 => h.set_tab_width(4),
                 5 => {
                     let _ = (h.eta(), h.per_sec(), h.elapsed(), h.duration(), h.length(), h.message());
                 }
@@ -500,7 +517,7 @@ impl Check for C07 {
         "C07"
     }
     fn rule_text(&self) -> String {
-        "seq: PRNG histories (1..40 ops) of (optionally with_position at construction) inc/dec/set_position/reset/finish*/abandon*/finish_using_style/update(set_pos,set_len)/set_length/inc_length/dec_length/unset_length/clone/drop with arguments biased to u64 boundaries, hidden and visible bars; after every call position()/length()/is_finished()/ProgressState view/fraction() are compared with a wrapping-u64 + saturating-Option model and every call is wrapped in catch_unwind. sched: 2..8 simulated threads each holding its own clone (or clone of a clone) doing 1..20 inc/dec/tick/get and position-neutral calls (reset_elapsed/reset_eta/set_message/set_prefix/set_length/getters/println) under a seeded random/sticky/PCT scheduler with every atomic load/store/RMW a scheduling point, with and without a steady ticker; oracle = wrapping sum after join + reachable positions. Non-trivial: seq = history of >= 2 ops containing a boundary argument (0 or > 2^62); sched = at least two threads with operations. Distinct = distinct scenario hash.".into()
+        "seq: PRNG histories (1..40 ops) of (optionally with_position at construction) inc/dec/set_position/reset/finish*/abandon*/finish_using_style/update(set_pos,set_len)/set_length/inc_length/dec_length/unset_length/clone/drop with arguments biased to u64 boundaries, hidden and visible bars; after every call position()/length()/is_finished()/ProgressState view/fraction() are compared with a wrapping-u64 + saturating-Option model and every call is wrapped in catch_unwind. sched: 2..8 simulated threads each holding its own clone (or clone of a clone) doing 1..20 inc/dec/inc_length/dec_length/tick/get and position-neutral calls (reset_elapsed/reset_eta/set_message/set_prefix/set_length/getters/println) under a seeded random/sticky/PCT scheduler with every atomic load/store/RMW a scheduling point, with and without a steady ticker; oracle = wrapping sum after join + reachable positions. Non-trivial: seq = history of >= 2 ops containing a boundary argument (0 or > 2^62); sched = at least two threads with operations. Distinct = distinct scenario hash.".into()
     }
     fn assumptions(&self) -> Vec<String> {
         vec![
@@ -597,7 +614,7 @@ impl Check for C07 {
             sc.set("w", 40);
             sc.set("hz", *rng.pick(&[0, 20]));
             sc.set("len_known", 1);
-            sc.set("len0", 1000);
+            sc.set("len0", 1_000_000);
             sc.set("ticker_ms", *rng.pick(&[0, 0, 1, 50]));
             sc.set("share_by_ref", rng.chance(1, 3) as u64);
             let nt = match tier {
@@ -610,9 +627,10 @@ impl Check for C07 {
                 let n = rng.range(1, if tier == Tier::Quick { 8 } else { 20 });
                 let mut ops = vec![];
                 for _ in 0..n {
-                    let k = rng.weighted(&[10, if wrapping { 5 } else { 0 }, 1, 3, 1, 2]);
+                    let k = rng.weighted(&[10, if wrapping { 5 } else { 0 }, 1, 3, 1, 2, 2]);
                     ops.push(match k {
                         5 => Op::new("neutral").n(rng.below(7)),
+                        6 => Op::new(if rng.chance(1, 2) { "inc_length" } else { "dec_length" }).n(rng.range(1, 9)),
                         0 => Op::new("inc").n(if wrapping { boundary_u64(rng) } else { rng.range(0, 9) }),
                         1 => Op::new("dec").n(boundary_u64(rng)),
                         2 => Op::new("tick"),
